@@ -231,6 +231,14 @@ func (server *SugarDB) setValues(ctx context.Context, entries map[string]interfa
 			// The previous value has expired: the new value does not inherit its deadline.
 			expireAt = time.Time{}
 		}
+		if old, ok := server.store[database][key]; ok {
+			// The value is replaced: what was counted for the key and its previous value is given back.
+			if oldMem, err := old.GetMem(); err == nil {
+				server.memUsed -= oldMem
+				server.memUsed -= int64(unsafe.Sizeof(key))
+				server.memUsed -= int64(len(key))
+			}
+		}
 		server.store[database][key] = internal.KeyData{
 			Value:    value,
 			ExpireAt: expireAt,
